@@ -9,12 +9,15 @@
 From SLT Require Import Base Par Cli ParProofs Driver DriverTrans DriverInv.
 Open Scope nat_scope.
 
+Definition aw (a : act) : nat := match a with ASql _ false => 4 | _ => 2 end.
+Fixpoint sw (l : list act) : nat := match l with [] => 0 | a :: r => aw a + sw r end.
+
 Definition rank (f : fcfg) (t : tstate) : nat :=
   match t with
-  | TIdle => 2 * length (f_script f) + 7
-  | TSpawned => 2 * length (f_script f) + 6
+  | TIdle => sw (f_script f) + 7
+  | TSpawned => sw (f_script f) + 6
   | TWaitSkip => 2
-  | TRunning rest conns => 2 * length rest + length conns + 4
+  | TRunning rest conns => sw rest + length conns + 4
   | TClosing _ open _ => length open + 2
   | TDone _ _ => 1
   | TReported _ => 0
@@ -52,7 +55,8 @@ Qed.
 Lemma ttrans_rank f tok nr next t t' evs next' :
   ttrans f tok nr next t t' evs next' -> rank f t' <= rank f t.
 Proof.
-  intros T; destruct T; cbn [rank length]; rewrite ?map_length; try lia.
+  intros T; destruct T; cbn [rank length sw aw]; rewrite ?map_length; try lia;
+    try (match goal with |- context [if ?b then _ else _] => destruct b end; cbn [sw aw]; lia).
   pose proof (removeN_length _ _ H). lia.
 Qed.
 
@@ -112,10 +116,10 @@ Lemma task_step_progress f tok nr next k t :
   mover t = true -> rank f (fst (fst (task_step f tok nr next k t))) < rank f t.
 Proof.
   destruct t as [| | |rest conns|r open had|r had|had]; cbn [mover]; try discriminate; intros _; cbn [task_step].
-  - destruct tok; cbn [fst rank length]; lia.
+  - destruct tok; cbn [fst rank length sw]; lia.
   - destruct tok; [cbn [fst rank]; rewrite map_length; lia|].
-    destruct rest as [|[c|c ok|] rest]; cbn [fst rank length]; rewrite ?map_length; try lia.
-    destruct (lookupN c conns); [destruct ok|]; cbn [fst rank length]; rewrite ?map_length; lia.
+    destruct rest as [|[c|c ok|] rest]; cbn [fst rank length sw aw]; rewrite ?map_length; try lia.
+    destruct (lookupN c conns); destruct ok; cbn [fst rank length sw aw]; rewrite ?map_length; lia.
   - destruct open as [|s0 o]; [cbn [fst rank length]; lia|].
     cbn [fst rank].
     assert (Hin : In (nth k (s0 :: o) s0) (s0 :: o)).
